@@ -71,6 +71,13 @@ pub fn fault_configs(tier: &str, seed: u64) -> Vec<Config> {
         let inputs: Vec<Vec<bool>> = (0..n).map(|_| vec![rng.random(), rng.random()]).collect();
         v.push(Config { name: format!("n{n}-E0-O{}", n - 1), circ: c.clone(), inputs, p_eval: 0, p_out: vec![n - 1] });
     }
+    {
+        // 1001 AND gates: two AND-share batches (1000 + 1) and two chunks of garbled gates; used by the
+        // catalogues (C03 / C04 / C07) only, the generic enumerations (C02 / C08) skip it
+        let c = fault_circuit(2, 997);
+        let inputs: Vec<Vec<bool>> = (0..2).map(|_| vec![rng.random(), rng.random()]).collect();
+        v.push(Config { name: "n2-E0-Oall-big".into(), circ: c, inputs, p_eval: 0, p_out: vec![0, 1] });
+    }
     if tier == "thorough" {
         let c = fault_circuit(2, 2);
         let inputs: Vec<Vec<bool>> = (0..2).map(|_| vec![rng.random(), rng.random()]).collect();
